@@ -4,6 +4,8 @@ package main
 // shared layout comparison used by C04 (decoder side) and C09 (packet headers).
 
 import (
+	"go/types"
+	"go/ast"
 	"fmt"
 	"sort"
 	"strings"
@@ -79,7 +81,7 @@ func compareLayout(r *Report, rule, kind, pos string, table *Layout, recs [][5]s
 	}
 	for _, rc := range recs {
 		key := strings.Join(rc[:], "|")
-		if listed[key] || rc[2] == "zero" || isPadSrc(rc[2]) || strings.HasPrefix(rc[2], "const:") {
+		if listed[key] || rc[2] == "zero" || isPadSrc(rc[2]) || isPaddingField(theWorld, kind, rc[2]) || strings.HasPrefix(rc[2], "const:") {
 			continue
 		}
 		// a record for a source the table lists elsewhere was already reported from the table side
@@ -404,3 +406,75 @@ func unionRule(w *World, r *Report) {
 		}
 	}
 }
+
+// isPaddingField decides semantically (not by name) that a record's source is a padding field of the kind:
+// an unexported byte slice or array of the kind's struct that nothing in the module touches except the
+// constructors (allocation) and the kind's own encoder and decoder.
+func isPaddingField(w *World, kindName, src string) bool {
+	if w == nil {
+		return false
+	}
+	f, _ := fieldOfSrc(src)
+	if f == "" {
+		f = src
+	}
+	if !strings.HasPrefix(f, "$.") || strings.Contains(f[2:], ".") || strings.Contains(f, "[") {
+		return false
+	}
+	name := f[2:]
+	k := w.Kinds[kindName]
+	if k == nil || name == "" || ast.IsExported(name) {
+		return false
+	}
+	st := structOf(k.Named)
+	if st == nil {
+		return false
+	}
+	var fv *types.Var
+	for i := 0; i < st.NumFields(); i++ {
+		if st.Field(i).Name() == name {
+			fv = st.Field(i)
+		}
+	}
+	if fv == nil {
+		return false
+	}
+	if !isByteSlice(fv.Type()) {
+		if _, ok := isByteArray(fv.Type()); !ok {
+			return false
+		}
+	}
+	key := kindName + "." + name
+	if v, ok := padCache[key]; ok {
+		return v
+	}
+	ok := true
+	ctors := map[*FuncInfo]bool{}
+	for _, c := range w.Constructors(k) {
+		ctors[c] = true
+	}
+	for _, fk := range w.sortedFuncKeys() {
+		fi := w.Funcs[fk]
+		if fi.Decl.Body == nil {
+			continue
+		}
+		own := fi.Recv != nil && fi.Recv.Obj() == k.Named.Obj() && isCodecMethod(fi.Decl.Name.Name)
+		info := fi.Pkg.TypesInfo
+		ast.Inspect(fi.Decl.Body, func(n ast.Node) bool {
+			se, isSel := n.(*ast.SelectorExpr)
+			if !isSel {
+				return true
+			}
+			if sel, has := info.Selections[se]; has && sel.Obj() == fv {
+				if !own && !ctors[fi] {
+					ok = false
+				}
+			}
+			return true
+		})
+	}
+	padCache[key] = ok
+	return ok
+}
+
+var padCache = map[string]bool{}
